@@ -324,6 +324,7 @@ func main() {
 	genSync()
 	genSites()
 	genGuards()
+	genSurface()
 	if len(failed) > 0 {
 		for _, f := range failed {
 			fmt.Fprintln(os.Stderr, "xlate: PATTERN-MISSING:", f)
